@@ -153,9 +153,16 @@ def load_known():
         return json.load(f)["findings"]
 
 
-def witness(binary, name):
+def witness(binary, name, variant=None):
     """True if the named canonical witness still shows the defect."""
-    p = subprocess.run([binary, "witness", name], stdout=subprocess.DEVNULL,
+    cmd = [binary, "witness", name]
+    if variant:
+        # feature-dependent findings are witnessed in the build variant where they show
+        b = build(variant)
+        if b is None:
+            raise RuntimeError("build of variant %s failed" % variant)
+        cmd = [b, "emit-witness", name]
+    p = subprocess.run(cmd, stdout=subprocess.DEVNULL,
                        stderr=subprocess.PIPE, text=True, env=ENV)
     if p.returncode == 10:
         return True
@@ -219,7 +226,7 @@ def finish(prop, tier, seed, binary, merged, distinct, definitions, t0, extra_co
     known_seen = []
     for k in open_known.values():
         try:
-            rep = witness(binary, k["witness"])
+            rep = witness(binary, k["witness"], k.get("witness_variant"))
         except RuntimeError as e:
             say("INCONCLUSIVE property=%s reason=%s" % (prop, e))
             return 2
@@ -228,7 +235,7 @@ def finish(prop, tier, seed, binary, merged, distinct, definitions, t0, extra_co
             known_seen.append(k["id"])
     for k in fixed_known:
         try:
-            rep = witness(binary, k["witness"])
+            rep = witness(binary, k["witness"], k.get("witness_variant"))
         except RuntimeError as e:
             say("INCONCLUSIVE property=%s reason=%s" % (prop, e))
             return 2
@@ -327,6 +334,12 @@ def check(prop, tier, seed):
 def replay(prop, path):
     with open(path) as f:
         r = json.load(f)
+    if PROPS.get(prop, {}).get("special") == "c20":
+        import specials
+        rc = specials.c20_replay(prop, r)
+        if rc == 1:
+            say("VIOLATION property=%s replay=%s" % (prop, path))
+        return rc
     binary = build("full")
     if binary is None:
         say("INCONCLUSIVE property=%s reason=harness build failed" % prop)
